@@ -305,13 +305,13 @@ pipeline, inside a one-of candidate, in a restarted recurrent subgraph, after an
 theorem C12_every_body_call_is_within_the_budget (P : Program) (s : St) (log : List Obs) (h : Exec P s log)
     (n : Node) (inv k : Nat) (kw : Kwargs) (hm : Obs.body n inv k kw ∈ log) :
     1 ≤ k ∧ k ≤ (P.cfg n).attemptsEff :=
-  (budget_exec h).2 _ hm
+  ((budget_exec h).2 _ hm).1
 
 /-- … and `get_default` is called only for a node that opts in with `use_default = True` (also the forced default of a
 recurrent destination whose iterations are exhausted) -/
 theorem C12_default_only_for_nodes_that_opt_in (P : Program) (s : St) (log : List Obs) (h : Exec P s log)
     (n : Node) (kw : Kwargs) (hm : Obs.dflt n kw ∈ log) : (P.cfg n).useDefault = true :=
-  (budget_exec h).2 _ hm
+  ((budget_exec h).2 _ hm).1
 
 /-- a task that sleeps before a retry has attempts left: the attempt that follows the delay is within the budget -/
 theorem C12_sleeping_task_has_attempts_left (P : Program) (s : St) (log : List Obs) (h : Exec P s log)
@@ -320,7 +320,8 @@ theorem C12_sleeping_task_has_attempts_left (P : Program) (s : St) (log : List O
     k + 1 ≤ (P.cfg n).attemptsEff := by
   have := (stack_ok (budget_exec h).1 htk)
   rw [hf] at this
-  exact this.head.2.2
+  have := this.head.2.1.2
+  omega
 
 /-- non-vacuity: in the demo run of the diamond node 1 is invoked (attempt 1, which fails) and then sleeps with an attempt left -/
 example : (execLog demoDiamond init [] demoSchedule).map (fun r =>
